@@ -1738,7 +1738,8 @@ class SpaceUpdater(SharedSpaceOperations):
             mro = self._graph.get_mro(desc)
 
             members = {}
-            for attr in ["spaces", "cells", "refs"]:
+            # References of the model are no members of the spaces
+            for attr in ["spaces", "cells", "own_refs"]:
                 namechain = []
                 for sname in mro:
                     space = self._graph.to_space(sname)
